@@ -42,6 +42,12 @@ def replay_c16(case):
         M = 1 if case["contr"] != "generalized" else 2
         cen = [cg.dyadic(rng.uniform(-1, 1) * 0.55, 8) for _ in range(3)] if case["geom"] != "coincident" else [[0, 0]] * 3
         basis.append(cg.shell(rng, rng.randint(1 if M > 1 else 0, case.get("lmax", 4)), K=K, M=M, typ=ty, lo=0.3, hi=2.5, cen=cen))
+    if case["geom"] == "coincident" and len(set(case["types"])) == 2 and case["id"] % 2 == 0:
+        # one centre, a Cartesian shell two units of l above a pure one: Cartesian d, f, g hold s, p, (s, d) parts, so these
+        # one-centre blocks do not vanish although the angular momenta differ
+        lo_l = 1 if case["contr"] == "generalized" else rng.choice([0, 1])
+        for s_ in basis:
+            s_["l"] = lo_l if s_["type"] == "spherical" else min(lo_l + 2, case.get("lmax", 4))
     shells = gb.make_basis(basis)
     # trapezoid rule: for a product exponent p <= 5 the aliasing error is ~ exp(-pi^2 / (p h^2)) = 5e-22 at h = 0.2, times
     # at most (pi / (p h))^(2l+2) ~ 1e5; the box cuts r^8 exp(-0.6 r^2) below 1e-13
@@ -106,13 +112,18 @@ def replay_c17(case):
     n = len(case["types"])
     geom = case["geom"]
     cens = []
+    twin_gap = 2.0 ** -6 if case["id"] % 2 else 2.0 ** -11       # displacement of the twin shells of the "dependent" class
     for k in range(n):
         if geom == "coincident":
             cens.append([[0, 0]] * 3)
         elif geom == "near":
             cens.append([cg.dyadic(rng.uniform(-0.3, 0.3), 8) for _ in range(3)])
+        elif geom == "farnear":            # distinct centres 1e-3..1e-5 bohr apart, tens of bohr from the coordinate origin
+            if k == 0:
+                far0 = cg.far_origin(rng)
+            cens.append(far0 if k == 0 else (cg.add(cens[k - 1], cg.tiny_offset(rng)) if k % 2 else cg.add(far0, cg.center(rng, 1.0))))
         elif geom == "dependent":          # pairs of shells almost on top of each other
-            cens.append(cens[k - 1][:2] + [cg.dyadic(cg.val(cens[k - 1][2]) + 2.0 ** -6, 20)] if k % 2 else [cg.dyadic(rng.uniform(-1, 1), 8) for _ in range(3)])
+            cens.append(cens[k - 1][:2] + [cg.dyadic(cg.val(cens[k - 1][2]) + twin_gap, 20)] if k % 2 else [cg.dyadic(rng.uniform(-1, 1), 8) for _ in range(3)])
         else:
             cens.append([cg.dyadic(rng.uniform(-4, 4), 8) for _ in range(3)])
     eri = case["eri"]
@@ -120,9 +131,9 @@ def replay_c17(case):
     for k, ty in enumerate(case["types"]):
         K = 1 if case["contr"] == "primitive" else rng.randint(2, 3)
         M = 1 if case["contr"] != "generalized" else 2
-        lo, hi = (0.1, 10.0) if eri else (0.05, 50.0)
+        lo, hi = (0.1, 10.0) if eri else ((5.0, 50.0) if geom == "farnear" and k == 0 else (0.05, 50.0))
         l = rng.randint(0, 2 if eri else 3)
-        if geom == "dependent" and k % 2:
+        if geom in ("dependent", "farnear") and k % 2:
             sh = dict(basis[k - 1], center=cens[k])          # the same shell displaced by 1/64 bohr: nearly dependent
         else:
             sh = cg.shell(rng, l, K=K, M=M, typ=ty, lo=lo, hi=hi, cen=cens[k])
@@ -146,11 +157,26 @@ def replay_c17(case):
     if np.abs(S).max() > 1 + 1e-9:
         res["violations"].append("an overlap element exceeds 1 in magnitude (%.12g)" % np.abs(S).max())
     psd("kinetic_energy_integral", m("gbasis.integrals.kinetic_energy").kinetic_energy_integral(shells), 1e-9)
-    pos = np.array([[rng.uniform(-3, 3) for _ in range(3)] for _ in range(2)] + [[cg.val(x) for x in basis[0]["center"]]])
+    c0 = np.array([cg.val(x) for x in basis[0]["center"]])
+    pos = np.array([list(c0 + np.array([rng.uniform(-3, 3) for _ in range(3)])) for _ in range(2)] + [list(c0)])
+    if geom == "dependent" and n >= 2:
+        # a charge at the distance where the Boys argument of the first primitive pair is just below 20 for the first shell
+        # and just above for its displaced twin: nearly dependent functions must be treated consistently across any
+        # change of evaluation regime of F_m
+        a0 = cg.val(basis[0]["exps"][0])
+        # (T0 = 12..36: wherever an implementation might switch between a series, a table and an asymptotic form)
+        for slot, T0 in enumerate(rng.sample([12.0, 16.0, 20.0, 25.0, 30.0, 36.0], 2)):
+            dT = 4 * a0 * (T0 / (2 * a0)) ** 0.5 * twin_gap          # T(twin, twin) - T(shell, shell) for a charge on the -z side
+            pos[slot] = c0 - np.array([0.0, 0.0, ((T0 - 0.2 * dT) / (2 * a0)) ** 0.5])   # T(shell, shell) < T0 < T(shell, twin)
     q = np.array([rng.uniform(0.2, 5.0) for _ in range(3)])
     V = m("gbasis.integrals.point_charge").point_charge_integral(shells, pos, q)
     for c in range(3):
         psd("point_charge_integral of a positive charge", V[:, :, c], 1e-9, sign=-1)
+    if not eri and case["id"] % 3 == 0:
+        from . import reuse
+        hv = []
+        reuse.second_use(gb, basis, m("gbasis.integrals.overlap").overlap_integral, hv, "overlap_integral")
+        res["violations"] += [v["message"] for v in hv]
     if eri:
         E = m("gbasis.integrals.electron_repulsion").electron_repulsion_integral(shells, notation="chemist")
         nb = E.shape[0]
@@ -184,7 +210,7 @@ def run(pid, tier, seed, only_case=None):
             rest = [c for c in small if c not in must and (c["id"] + seed) % 3 == 0]
             cases = must + rest[:8]
     else:
-        st = run_classes(ctx, 5, ["coincident", "near", "separated", "dependent"], ["primitive", "contracted", "generalized"])
+        st = run_classes(ctx, 5, ["coincident", "near", "separated", "dependent", "farnear"], ["primitive", "contracted", "generalized"])
         cases = []
         for n, s in enumerate(st):
             c = {"id": n + 1, "types": s["types"], "geom": s["geom"], "contr": s["contr"], "seed": seed}
